@@ -449,6 +449,8 @@ class Interp(object):
 
     def operator(self, d, Y):
         op = d // 1000
+        if self.qa == 2:
+            self.qa = 0           # the run of quality values ends at the first descriptor that is not a class-33 element (A.3)
         if op == 201:
             self.woff = Y - 128 if Y else 0
         elif op == 202:
